@@ -43,6 +43,11 @@ CHECKS = {
    text="Batches of %num operations on nil / small / huge (beyond 64 bit) / negative integers, canonical rationals (also written as unreduced fraction literals) and single-radical surds are compiled and run; each result must equal the exact result in the module's canonical representation (ints stay ints, rational paths never lower, surd paths collapse, div always rational), be nil exactly for nil operands, division by zero and mixed radicals, never be a runtime error, and pass a structural canonicity check (gcd 1, positive denominator, b != 0, square-free radical).",
    design="§3 C20",
    note="min/max/clamp with incomparable radicals are not judged; sqrt only on small radicands (documented O(sqrt n))."),
+ "C19": dict(
+   technique="runtime monitoring: history checker against a host-side persistent map model over generated %dict programs with adversarial (colliding) keys",
+   text="Histories of 5-400 put/replace/remove/from/merge operations over key pools built to collide (Str[b] vs b, full 32-bit FNV-1a collisions found by birthday search, keys sharing the first 1-6 hash fragments) are compiled into one program that retains every version and observes get/has?/count/entries/keys/values on new and old versions; every observation must equal a BTreeMap model of that version.",
+   design="§3 C19",
+   note="Values are integers; iteration order is compared as a multiset (documented as unspecified)."),
 }
 
 NOT_BUILT = "check not built yet in this round (work in progress; see DESIGN.md §6 build order)"
